@@ -735,6 +735,8 @@ def main(argv):
     fin = [(b, f) for b, f in zip(xs, rust) if is_finite_bits(b) and f and "J" in f]
     idx_of = {b: i for i, b in enumerate(xs)}
     pick = [fin[rng.below(len(fin))] for _ in range(min(n_cli, len(fin)))] if fin else []
+    cbs = set(cb)
+    pick = [bf for bf in fin if bf[0] in cbs] + pick          # the corpus (fixed-finding witnesses) always runs
     for k in range(0, len(pick), 500):
         chunk = pick[k:k + 500]
         got, err = run_cli_roundtrip(cli, [c.unhex(f["J"]) for _, f in chunk])
